@@ -20,6 +20,7 @@ import (
 	"dario.cat/mergo"
 	"github.com/rs/zerolog/log"
 
+	"github.com/coreruleset/crs-toolchain/v2/internal/verifhook"
 	"github.com/coreruleset/crs-toolchain/v2/regex"
 	"github.com/coreruleset/crs-toolchain/v2/regex/processors"
 	"github.com/coreruleset/crs-toolchain/v2/utils"
@@ -182,6 +183,7 @@ func (p *Parser) Parse(formatOnly bool) (*bytes.Buffer, int) {
 			p.Suffixes[i] = expandDefinitions(bytes.NewBufferString(suffix), p.variables).String()
 		}
 	}
+	verifhook.Emit("parse.done", "defs", len(p.variables), "prefixes", len(p.Prefixes), "suffixes", len(p.Suffixes), "flags", len(p.Flags))
 	return p.dest, wrote
 }
 
@@ -197,6 +199,7 @@ func (p *Parser) parseLine(line string) ParsedLine {
 	}
 
 	for name, pattern := range p.patterns {
+		verifhook.Emit("parse.try", "name", name)
 		found := pattern.FindStringSubmatch(line)
 		// found[0] has the whole line that matched, found[N] has the subgroup
 		if len(found) > 0 {
@@ -229,6 +232,7 @@ func (p *Parser) parseLine(line string) ParsedLine {
 			break
 		}
 	}
+	verifhook.Emit("parse.kind", "kind", int(pl.parsedType), "line", line)
 	return pl
 }
 
